@@ -625,6 +625,40 @@ def check_c13(c, result):
                 tq.append((qid, text))
             groups.append((ids, 2))
         c.stats['c13_nested_value_groups'] += 3
+    # conditions whose literals hold multi-byte characters, raw line breaks, tabs, white-space runs or end in a
+    # backslash: the predicate-free original, the same with a never-called declaration, behind a call, as a value
+    for wi, word in enumerate(['café', '日本', '😀x', 'a\nb', 'a\r\nb', 'p  q', 'p\tq', 'C:\\', 'ü' * 40, 'naïve "q" é'] if vkinds else []):
+        K = vkinds[wi % len(vkinds)]
+        acc = querygen.KINDS[K][0][0]
+        L = querygen.lit(word)
+        frm, tail = 'FROM %s AS m WHERE ' % K, ' SELECT m.%s()' % acc
+        NEVER = 'predicate never(%s u) { u.%s() == "never" } ' % (K, acc)
+        ge = {'orig': frm + 'm.%s() != %s' % (acc, L) + tail,
+              'never_called_declaration': NEVER + frm + 'm.%s() != %s' % (acc, L) + tail,
+              'behind_a_call': 'predicate ne(%s y) { y.%s() != %s } ' % (K, acc, L) + frm + 'ne(m)' + tail,
+              'as_a_value': 'predicate hasv(%s x, string s) { x.%s() == s } ' % (K, acc) + frm + '!hasv(m, %s)' % L + tail,
+              'alias_renamed': 'FROM %s AS zq WHERE zq.%s() != %s SELECT zq.%s()' % (K, acc, L, acc)}
+        ids = {}
+        for name, text in ge.items():
+            qid = 'n%de_%s' % (wi, name)
+            ids[name] = qid
+            tq.append((qid, text))
+        groups.append((ids, 1))
+        c.stats['c13_special_literal_groups'] += 1
+    if 'variable_declaration' in vkinds:
+        for wi, L in enumerate(['"\\"p  q\\""', '"\\"p\tq\\""', '"\\"C:\\\\\\\\docs\\\\\\\\\\""']):
+            frm, tail = 'FROM variable_declaration AS m WHERE ', ' SELECT m.getName()'
+            gf = {'orig': frm + 'm.getVariableValue() == %s' % L + tail,
+                  'never_called_declaration': 'predicate never(variable_declaration u) { u.getName() == "never" } ' + frm + 'm.getVariableValue() == %s' % L + tail,
+                  'behind_a_call': 'predicate eq(variable_declaration y) { y.getVariableValue() == %s } ' % L + frm + 'eq(m)' + tail,
+                  'as_a_value': 'predicate hasv(variable_declaration x, string s) { x.getVariableValue() == s } ' + frm + 'hasv(m, %s)' % L + tail}
+            ids = {}
+            for name, text in gf.items():
+                qid = 'n%df_%s' % (wi, name)
+                ids[name] = qid
+                tq.append((qid, text))
+            groups.append((ids, 1))
+            c.stats['c13_special_literal_groups'] += 1
     res, ip, _ = c.run(tq)
     model = c.model(tq)
     c.tie(tq, res, ip, model, result)
@@ -634,6 +668,11 @@ def check_c13(c, result):
     for ids, k in groups:
         base = res.get(ids['orig'], ('missing', ''))
         if base[0] != 'ok':
+            # no answer for the original: then none for any variant either (same outcome class)
+            oks = [name for name, qid in ids.items() if res.get(qid, ('missing', ''))[0] == 'ok']
+            if oks:
+                result.violations.append(payload_replay('C13', 'the original is not answered (%s) but its variant "%s" is' % (base[0], oks[0]), [texts[ids['orig']], texts[ids[oks[0]]]],
+                                                        'original: %s %s' % (base[0], base[1][:160]), c.files))
             c.stats['c13_skipped'] += 1
             continue
         b = tuples_of(base[1], k)
